@@ -425,9 +425,16 @@ def _uf_facts(model, assertions):
 HARNESS_OBJECT = re.compile(r"^'(Stub|Obj|O|N|_N|C|Ctx|Ev|Book|FakeFile|Encoded)' object has no attribute")
 
 
+class NotReachable(Exception):
+    """raised by a unit's native companion when the state the verifier proposed cannot be produced by running the real
+    function from its entry: the proposed input is then no counterexample (and no bounded evaluation)"""
+
+
 def harness_gap(exc):
     """the code under contract read an attribute of an OPAQUE collaborator that the harness does not model: the contract
     does not speak about such a run (undecided - the unit needs a richer collaborator), it is not a failure of the code"""
+    if isinstance(exc, NotReachable):
+        return True
     return isinstance(exc, AttributeError) and bool(HARNESS_OBJECT.match(str(exc)))
 
 
@@ -874,6 +881,8 @@ def crosscheck_instance(inst, n=6, seed=0):
         except Exception:
             continue
         nat = native_outcome(unit, fn, [_clone(a) for a in args])
+        if nat.kind == 'raise' and harness_gap(nat.value):
+            continue                        # the sampled state cannot be produced natively: nothing to compare
         it = Interp()
 
         def thunk():
